@@ -167,6 +167,21 @@ def showNamed : Option Named → List Str
   | none => ["none".toList]
   | some x => ["some".toList, x.name, if x.ext then ['1'] else ['0']]
 
+/-- `<remote> <url> failed <exc>` | `<remote> <url> got json`, n times -/
+partial def decProjects : Nat → List Str → List (Base × Fetch) → Option (List (Base × Fetch))
+  | 0, [], acc => some acc.reverse
+  | 0, _ :: _, _ => none
+  | n + 1, rem :: url :: kind :: r, acc =>
+    if kind == "failed".toList then
+      match r with
+      | e :: r' => decProjects n r' ((baseOf rem url, .failed e) :: acc)
+      | [] => none
+    else
+      match decJson r with
+      | some (doc, r') => decProjects n r' ((baseOf rem url, .got doc) :: acc)
+      | none => none
+  | _ + 1, _, _ => none
+
 end C16
 
 open C16 in
@@ -209,6 +224,17 @@ def dispatchC16 : List Str → Option (List Str)
           match load (baseOf rem url) f with
           | .loaded os => some ["loaded".toList, showNat (entriesAll os).length]
           | .aborted w => some ["aborted".toList, w]
+        | none => some ["bad-request".toList]
+      | _ => some ["bad-request".toList]
+    else if cmd == "c16.loadall".toList then
+      -- c16.loadall <count> (<remote> <url> failed <exc> | <remote> <url> got json)*
+      match args with
+      | cnt :: r =>
+        match decProjects (natOf cnt) r [] with
+        | some ps =>
+          match loadAll ps with
+          | .loaded os => some ("ok".toList :: encEntriesK (entriesAll os) (os.map keysPre).flatten)
+          | .aborted w => some ["err".toList, w]
         | none => some ["bad-request".toList]
       | _ => some ["bad-request".toList]
     else if cmd == "c16.rebase".toList then
